@@ -221,6 +221,22 @@ func layoutCase(c *enum.Ctx, k kase) bool {
 		if ct.UTR5start() != u5.Start() || ct.UTR5end() != u5.End() || ct.UTR3start() != u3.Start() || ct.UTR3end() != u3.End() {
 			fail("UTR-shorthand", "UTR5start/end UTR3start/end disagree with UTR5()/UTR3()")
 		}
+		// the transcript is turned round after the UTRs have been asked for once: they follow the orientation
+		// it has now
+		if base != feat.NotOriented && ct.Orient != feat.NotOriented {
+			ct.Orient = -ct.Orient
+			if c.Guard("UTR/panic", k, func() { u5, cds, u3 = ct.UTR5(), ct.CDS(), ct.UTR3() }) {
+				return true
+			}
+			first, last = u5, u3
+			if -base == feat.Reverse {
+				first, last = u3, u5
+			}
+			if first.Start() != 0 || first.End() != cds.Start() || last.Start() != cds.End() || last.End() != t.Len() {
+				fail("UTR-CDS-tiling/after-reorientation", "the transcript's orientation was changed to %v after a first query (base orientation now %v): UTR5=[%d,%d) CDS=[%d,%d) UTR3=[%d,%d) on a transcript of length %d", ct.Orient, -base, u5.Start(), u5.End(), cds.Start(), cds.End(), u3.Start(), u3.End(), t.Len())
+			}
+			ct.Orient = -ct.Orient
+		}
 	}
 	return true
 }
